@@ -24,6 +24,9 @@ pub(crate) struct SendHandler {
     handler_recv: mpsc::Receiver<OutboundPacket>,
     /// Exit channel to shutdown the handler.
     exit: oneshot::Receiver<()>,
+    /// Virtual network: encoded datagrams go to the harness instead of the UDP sockets.
+    #[cfg(feature = "verif-hooks")]
+    verif_tx: Option<mpsc::UnboundedSender<crate::verif::net::Outbound>>,
 }
 
 enum Error {
@@ -48,6 +51,8 @@ impl SendHandler {
             send_ipv6,
             handler_recv,
             exit,
+            #[cfg(feature = "verif-hooks")]
+            verif_tx: None,
         };
 
         // start the handler
@@ -58,8 +63,58 @@ impl SendHandler {
         (handler_send, exit_send)
     }
 
+    /// Virtual-network variant of [`SendHandler::spawn`].
+    #[cfg(feature = "verif-hooks")]
+    pub(crate) fn verif_spawn(
+        executor: Box<dyn Executor>,
+        verif_tx: mpsc::UnboundedSender<crate::verif::net::Outbound>,
+    ) -> (mpsc::Sender<OutboundPacket>, oneshot::Sender<()>) {
+        let (exit_send, exit) = oneshot::channel();
+        let (handler_send, handler_recv) = mpsc::channel(30);
+        let mut send_handler = SendHandler {
+            send_ipv4: None,
+            send_ipv6: None,
+            handler_recv,
+            exit,
+            verif_tx: Some(verif_tx),
+        };
+        executor.spawn(Box::pin(async move {
+            debug!("Send handler starting");
+            send_handler.start().await;
+        }));
+        (handler_send, exit_send)
+    }
+
+    /// Virtual-network variant of [`SendHandler::start`]: packets are encoded exactly as for the
+    /// wire and handed to the harness.
+    #[cfg(feature = "verif-hooks")]
+    async fn verif_start(&mut self) {
+        let tx = self.verif_tx.take().expect("virtual sender");
+        loop {
+            tokio::select! {
+                Some(packet) = self.handler_recv.recv() => {
+                    let encoded_packet = packet.packet.encode(&packet.node_address.node_id);
+                    METRICS.add_sent_bytes(encoded_packet.len());
+                    let _ = tx.send((
+                        packet.node_address.socket_addr,
+                        packet.node_address.node_id,
+                        encoded_packet,
+                    ));
+                }
+                _ = &mut self.exit => {
+                    debug!("Send handler shutdown");
+                    return;
+                }
+            }
+        }
+    }
+
     /// The main future driving the send handler. This will shutdown when the exit future is fired.
     async fn start(&mut self) {
+        #[cfg(feature = "verif-hooks")]
+        if self.verif_tx.is_some() {
+            return self.verif_start().await;
+        }
         loop {
             tokio::select! {
                 Some(packet) = self.handler_recv.recv() => {
